@@ -2,14 +2,18 @@ package main
 
 import (
 	"context"
+	"errors"
 	"fmt"
+	"os"
 	"reflect"
 	"sort"
 	"strings"
+	"syscall"
 
 	"github.com/grailbio/bigslice/frame"
 	"github.com/grailbio/bigslice/sliceio"
 	"github.com/grailbio/bigslice/slicetype"
+	"verifh/ev"
 )
 
 type cmpMode int
@@ -163,6 +167,11 @@ func drive(tc *tcase, in *inst, seq []int) (rows []crow, trace []readEv, fs []fi
 			break
 		}
 		if err != nil {
+			if environmental(err) {
+				// cogroup and the spill readers use temporary files: a full disk or an
+				// exhausted descriptor table is a failure of the test bed, not a verdict.
+				ev.Fatal("%s [%s]: environment error from Read: %v", tc.reader, tc.desc, err)
+			}
 			add("unexpected-error", "Read returned error %v", err)
 			break
 		}
@@ -199,6 +208,23 @@ func drive(tc *tcase, in *inst, seq []int) (rows []crow, trace []readEv, fs []fi
 		}
 	}
 	return rows, trace, fs
+}
+
+// environmental reports errors that come from the file system / process limits.
+func environmental(err error) bool {
+	var pe *os.PathError
+	var se *os.SyscallError
+	var en syscall.Errno
+	if errors.As(err, &pe) || errors.As(err, &se) || errors.As(err, &en) {
+		return true
+	}
+	msg := err.Error()
+	for _, s := range []string{"no space left on device", "too many open files", "permission denied", "read-only file system", "no such file or directory", "input/output error", "cannot allocate memory"} {
+		if strings.Contains(msg, s) {
+			return true
+		}
+	}
+	return false
 }
 
 func fulls(rows []crow) []string {
@@ -306,6 +332,16 @@ func runCase(tc *tcase, seq []int) (fs []finding, trace string, in *inst, nreads
 			fs = append(fs, finding{class: x[0], msg: x[1]})
 		}
 	}
+	// One finding per class and run (the first).
+	seen := map[string]bool{}
+	uniq := fs[:0]
+	for _, f := range fs {
+		if !seen[f.class] {
+			seen[f.class] = true
+			uniq = append(uniq, f)
+		}
+	}
+	fs = uniq
 	for i := range fs {
 		fs[i].trace = trace
 	}
